@@ -141,4 +141,16 @@ def run(ctx):
     # the merge/finalize table above speaks about resolve() only if resolve() feeds every feedback through it
     from .c01 import r3_r5_resolvers
     r3_r5_resolvers(ctx, sym, ids=('R6', 'R7'), writers=False)
+    # merge() takes the label/category (which finalize() needs to tell a mistake from "nothing fired") only from
+    # feedback whose message is not None: a triggered feedback must therefore always get a message text
+    ctx.rule('R8', "Feedback._get_message executed abstractly (explicit text / template rendering to text, blanks or "
+                   "nothing / neither): a triggered feedback always has a message that is not None, so merge() records "
+                   "its label and finalize() cannot mistake it for the default 'no errors' result (shared with C20.R5)")
+    from .c20 import message_rule
+    message_rule(ctx, sym, 'R8')
+    ctx.rule('R9', "Feedback.__init__ executed abstractly for correct, muted and kind: the explicit keyword argument "
+                   "(correct=False, muted=False included) is what the instance carries into merge() (shared with "
+                   "C20.R8)")
+    from .c20 import constructor_rule
+    constructor_rule(ctx, sym, 'R9', ['correct', 'muted', 'kind'])
     ctx.assume("instructor-defined Feedback subclasses are outside the class table")
